@@ -29,6 +29,9 @@ type MethodInfo struct {
 	PayloadType reflect.Type // nil when the method has no payload
 	ResultType  reflect.Type // nil when the method has no result
 	HasView     bool
+	// RequestDataType is the generated <Method>RequestData struct (Payload + Body io.ReadCloser) of a method that
+	// receives the raw HTTP request body (SkipRequestBodyEncodeDecode)
+	RequestDataType reflect.Type
 }
 
 // ServiceInfo registers the generated constructors of one service.
@@ -54,6 +57,9 @@ type script struct {
 	Auth   map[string]bool `json:"auth"` // scheme callback -> accept; missing = accept
 	// TamperView, when set, replaces the goa-view header of the response before the client sees it (C08)
 	TamperView *string `json:"tamper_view"`
+	// TamperDrop removes these top-level keys from a JSON object response body before the client sees it:
+	// a response of a non-conforming server (C08: required attributes of the labelled view)
+	TamperDrop []string `json:"tamper_drop"`
 	// Results are the messages a streaming method sends (server streaming, bidirectional)
 	Results []any `json:"results"`
 }
@@ -81,6 +87,7 @@ type callState struct {
 	script        script
 	serverCalled  bool
 	serverPayload any
+	serverBody    *string
 	auth          []authCall
 	writeHeaders  int
 	streamed      []any  // messages the service method received from the stream
@@ -169,6 +176,15 @@ func (rt *Runtime) Invoke(ctx context.Context, svc, method string, payload any) 
 		return nil, "", fmt.Errorf("harness: cannot build scripted result: %w", err)
 	}
 	return rv.Interface(), sc.View, nil
+}
+
+// NoteBody records the raw request body a stub read from the io.ReadCloser the generated server handed it.
+func (rt *Runtime) NoteBody(ctx context.Context, data []byte) {
+	st := rt.state(ctx)
+	rt.mu.Lock()
+	s := string(data)
+	st.serverBody = &s
+	rt.mu.Unlock()
 }
 
 // InvokeStream is called by the stub of a streaming method: it reads the client's messages until
@@ -395,9 +411,22 @@ func (rt *Runtime) roundTrip(id string, raw []byte, w *wire) (*http.Response, er
 	}
 	rt.mu.Lock()
 	tv := st.script.TamperView
+	drop := st.script.TamperDrop
 	rt.mu.Unlock()
 	if tv != nil {
 		res.Header.Set("goa-view", *tv)
+	}
+	if len(drop) > 0 {
+		var obj map[string]json.RawMessage
+		if json.Unmarshal(rb, &obj) == nil && obj != nil {
+			for _, k := range drop {
+				delete(obj, k)
+			}
+			nb, _ := json.Marshal(obj)
+			res.Body = io.NopCloser(bytes.NewReader(nb))
+			res.ContentLength = int64(len(nb))
+			res.Header.Set("Content-Length", fmt.Sprint(len(nb)))
+		}
 	}
 	return res, nil
 }
@@ -456,6 +485,7 @@ type command struct {
 	Service  string            `json:"service"`
 	Method   string            `json:"method"`
 	Payload  any               `json:"payload"`
+	RawBody  string            `json:"raw_body"`  // request body of a method that takes it as a stream (SkipRequestBodyEncodeDecode)
 	Messages []any             `json:"messages"`  // streamed by the client (client streaming, bidirectional)
 	CallerMD bool              `json:"caller_md"` // gRPC: the caller context already carries outgoing metadata
 	Script   script            `json:"script"`
@@ -474,6 +504,7 @@ type observation struct {
 	ID             string      `json:"id,omitempty"`
 	ServerCalled   bool        `json:"server_called"`
 	ServerPayload  any         `json:"server_payload,omitempty"`
+	ServerBody     *string     `json:"server_body,omitempty"`
 	ClientResult   any         `json:"client_result,omitempty"`
 	ClientView     string      `json:"client_view,omitempty"`
 	ClientError    *errInfo    `json:"client_error,omitempty"`
@@ -609,6 +640,15 @@ func (rt *Runtime) exec(c *command) (obs observation) {
 			return
 		}
 		endpoint := ep.Call(nil)[0].Interface().(goa.Endpoint)
+		if mi.RequestDataType != nil {
+			// the endpoint takes <Method>RequestData{Payload, Body}
+			rd := reflect.New(mi.RequestDataType)
+			if f := rd.Elem().FieldByName("Payload"); f.IsValid() && payload != nil {
+				f.Set(reflect.ValueOf(payload))
+			}
+			rd.Elem().FieldByName("Body").Set(reflect.ValueOf(io.NopCloser(strings.NewReader(c.RawBody))))
+			payload = rd.Interface()
+		}
 		res, err := endpoint(context.Background(), payload)
 		if err != nil {
 			obs.ClientError = rt.describeError(s, c.Method, err)
@@ -631,6 +671,7 @@ func (rt *Runtime) exec(c *command) (obs observation) {
 	rt.mu.Lock()
 	obs.ServerCalled, obs.ServerPayload, obs.Auth, obs.WriteHeaders = st.serverCalled, st.serverPayload, st.auth, st.writeHeaders
 	obs.ServerStreamed, obs.RecvError = st.streamed, st.recvError
+	obs.ServerBody = st.serverBody
 	delete(rt.states, id)
 	rt.mu.Unlock()
 	return
